@@ -15,8 +15,21 @@
 
 static dispatch_queue_t make_target(vf_rng_t *r, int *serial)
 {
-	uint32_t k = vf_rnd_n(r, 4);
+	uint32_t k = vf_rnd_n(r, 6);
 	*serial = 0;
+	if (k == 4) {
+		/* a workloop serialises the handlers like a serial queue */
+		*serial = 1;
+		return (dispatch_queue_t)dispatch_workloop_create("vf.src.workloop");
+	}
+	if (k == 5) {
+		/* serial queue over a serial queue (or over a workloop): the handler runs two levels down */
+		*serial = 1;
+		dispatch_queue_t base = vf_rnd_n(r, 2) ? dispatch_queue_create("vf.src.base", DISPATCH_QUEUE_SERIAL) : (dispatch_queue_t)dispatch_workloop_create("vf.src.base-workloop");
+		dispatch_queue_t q = dispatch_queue_create_with_target("vf.src.serial-over-serial", DISPATCH_QUEUE_SERIAL, base);
+		dispatch_release(base);
+		return q;
+	}
 	if (k == 0) { *serial = 1; return dispatch_queue_create("vf.src.serial", DISPATCH_QUEUE_SERIAL); }
 	if (k == 1) return dispatch_queue_create("vf.src.conc", DISPATCH_QUEUE_CONCURRENT);
 	if (k == 2) { dispatch_queue_t g = dispatch_get_global_queue(vf_rnd_n(r, 2) ? DISPATCH_QUEUE_PRIORITY_DEFAULT : DISPATCH_QUEUE_PRIORITY_LOW, 0); dispatch_retain(g); return g; }
